@@ -34,7 +34,7 @@ class IntsToStrings(Harness):
                    "NumPy composite; tied to IEEE conversion by the QF_BVFP conversion lemma (prelude)",)
     bounds = {"quick": "batches of 1 number over the whole int64 range; batches of 2 with ranges [-10,10] x int64 and "
                        "int64 x [-10,10]",
-              "thorough": "adds batches of 2 over int64 x int64 and batches of 3 (one full-range row, others |n|<=10^4), cut into 7 bands per full-range row whose union is int64"}
+              "thorough": "adds batches of 2 over int64 x int64 and batches of 3 (one full-range row, others |n|<=10^4), cut into 9 bands per full-range row whose union is int64"}
 
     def skeletons(self, tier, seed):
         full = [I64_MIN, I64_MAX]
@@ -45,9 +45,9 @@ class IntsToStrings(Harness):
             sk += [dict(ranges=[small, full]), dict(ranges=[full, small])]
             # int64 x int64 and the 3-row batch, cut into bands of the first full-range row so that every skeleton
             # stays well inside its budget on a loaded machine (the union of the bands is the whole int64 range)
-            bands = [[I64_MIN, -10 ** 16 - 1], [-10 ** 16, -10 ** 12 - 1], [-10 ** 12, -10 ** 6 - 1], [-10 ** 6, 10 ** 6], [10 ** 6 + 1, 10 ** 12],
-                     [10 ** 12 + 1, 10 ** 16], [10 ** 16 + 1, I64_MAX]]
-            sk += [dict(ranges=[b, b2]) for b in bands for b2 in bands]      # int64 x int64 as 49 band pairs
+            bands = [[I64_MIN, -10 ** 18 - 1], [-10 ** 18, -10 ** 16 - 1], [-10 ** 16, -10 ** 12 - 1], [-10 ** 12, -10 ** 6 - 1], [-10 ** 6, 10 ** 6],
+                     [10 ** 6 + 1, 10 ** 12], [10 ** 12 + 1, 10 ** 16], [10 ** 16 + 1, 10 ** 18], [10 ** 18 + 1, I64_MAX]]
+            sk += [dict(ranges=[b, b2]) for b in bands for b2 in bands]      # int64 x int64 as 81 band pairs
             sk += [dict(ranges=[[-10 ** 4, 10 ** 4], b, [-10 ** 4, 10 ** 4]]) for b in bands]
         return sk
 
